@@ -75,7 +75,7 @@ KF = {
     "C22-KF6": dict(targets=TARGETS, no_ops=_fops(["ceil", "floor", "trunc", "nearest"])),
     "C22-KF7": dict(targets=TARGETS, guards={"sqrt"}),
     "C22-KF8": dict(targets=("python",), guards={"fdiv"}),
-    "C22-KF9": dict(targets=("python",), no_ops=F32_ARITH),
+    "C22-KF9": dict(targets=("python",), no_ops={"f32.demote_f64"}),
     "C22-KF10": dict(targets=TARGETS, no_features={"dead_loops"}),
     "C22-KF11": dict(targets=TARGETS, guards={"addr"}),
     "C22-KF12": dict(targets=TARGETS, guards={"ci"}),
@@ -84,6 +84,7 @@ KF = {
     "C22-KF15": dict(targets=("python",), no_features={"export_float_globals"}),
     "C22-KF16": dict(targets=("python",), no_features={"elem_imports"}),
     "C22-KF17": dict(targets=TARGETS, no_features={"twice_br_table"}),
+    "C22-KF18": dict(targets=TARGETS, no_features={"grow_negative"}),
 }
 
 
@@ -551,6 +552,14 @@ def _dead_loop(desc):
     return any(scan(f["body"], False) for f in desc["funcs"])
 
 
+def _grow_negative(desc):
+    for f in desc["funcs"]:
+        for n in R.walk(f["body"]):
+            if n[0] == "memory.grow" and n[2] and n[2][0][0] == "i32.const" and _sgn(n[2][0][1][0], 32) < 0:
+                return True
+    return False
+
+
 def _py_minmax(name, t, a, b):
     x, y = _f(t, a), _f(t, b)
     r = min(x, y) if name == "min" else max(x, y)
@@ -594,8 +603,9 @@ def classify(case, msg):
             return kid
         if ".trunc_f" in op and ref == "trap:trunc" and kind in ("no-trap",):
             return "C22-KF3"
-        if target == "python" and op in F32_ARITH and kind == "value" and str(h.get("gotv", "")).startswith("overflow:"):
-            return "C22-KF9"  # result left in double precision: not representable as f32
+        if target == "python" and op == "f32.demote_f64" and kind == "value" and str(h.get("gotv", "")).startswith("overflow:"):
+            if float(str(h["gotv"])[9:]) == _f("f64", args[0]):
+                return "C22-KF9"  # the f64 operand comes back unchanged: not representable as f32
     # structural findings (predicate on the module + outcome class)
     if kind == "inst-exc" and h.get("exc") == "TypeError" and h.get("frame") == "wasm/wasm2ppci.py:gen_end_instruction" and _dead_loop(desc):
         return "C22-KF10"
@@ -618,6 +628,11 @@ def classify(case, msg):
         nfi = R.n_func_imports(desc)
         if any(fi < nfi for e in desc.get("elems", []) for fi in e["funcs"]):
             return "C22-KF16"
+    if _grow_negative(desc) and ref == "i32:-1":
+        if target == "python" and kind == "exc-vs-val" and h.get("exc") == "ValueError" and h.get("frame", "").endswith("_python_instance.py:grow"):
+            return "C22-KF18"
+        if target == "native" and kind == "value":
+            return "C22-KF18"
     if case.get("twice") and _has_op(desc, lambda o: o == "br_table") and kind in ("value", "no-trap", "exc-vs-val", "global", "mem-content", "killed"):
         return "C22-KF17"
     # findings that also show inside programs when their exclusion is lifted
